@@ -882,7 +882,7 @@ func scenarios1(prop string) []d1x.Scenario {
 				New: func() vsched.Harness { return &pairH{ops: [2]string{a, b}} }}
 		}
 		return []d1x.Scenario{
-			mkp("efos", "flush", 1, 2, 40),
+			mkp("efos", "flush", 0, 2, 40),
 			mkp("efos", "batch>flush", 0, 1, 1),
 			mkp("scan", "flush", 0, 1, 1),
 			mkp("snapget", "compact", 0, 1, 1),
